@@ -287,20 +287,11 @@ impl<F: PathFetcher> MultiPathManager<F> {
             .flatten();
 
         match try_path {
-            Some(active) => {
-                // XXX(ake): Since the Paths are actively managed, they should never be expired
-                // here.
-                let timestamp = now
-                    .duration_since(SystemTime::UNIX_EPOCH)
-                    .unwrap_or_default()
-                    .as_secs() as u32;
-
-                let expired = active.is_expired(timestamp).unwrap_or(false);
-
-                debug_assert!(!expired, "Returned expired path from try_get_path");
-
-                Some(active)
-            }
+            // The worker only replaces the active path on its maintenance ticks (which back off
+            // after fetch failures), so the active path can outlive its expiry: never hand out
+            // an expired path, treat it as absent until the worker has caught up.
+            Some(active) if path_expired_at(&active, now) => None,
+            Some(active) => Some(active),
             None => {
                 // Start managing paths for the src-dst pair
                 self.fast_ensure_managed_paths(src, dst);
@@ -339,14 +330,20 @@ impl<F: PathFetcher> MultiPathManager<F> {
             })
             .flatten();
 
-        let res = match try_path {
+        // An active path that outlived its expiry (see `cached_path`) is treated as absent.
+        let res = match try_path.filter(|active| !path_expired_at(active, now)) {
             Some(active) => Ok(active),
             None => {
                 // Ensure paths are being managed
                 let path_set = self.ensure_managed_paths(src, dst);
 
                 // Try to get active path, possibly waiting for initialization/update
-                let active = path_set.active_path().await.as_ref().map(|p| p.0.clone());
+                let active = path_set
+                    .active_path()
+                    .await
+                    .as_ref()
+                    .map(|p| p.0.clone())
+                    .filter(|active| !path_expired_at(active, now));
 
                 // Check active path after waiting
                 match active {
@@ -367,18 +364,6 @@ impl<F: PathFetcher> MultiPathManager<F> {
                 }
             }
         };
-
-        if let Ok(active) = &res {
-            let timestamp = now
-                .duration_since(SystemTime::UNIX_EPOCH)
-                .unwrap_or_default()
-                .as_secs() as u32;
-
-            // XXX(ake): Since the Paths are actively managed, they should never be expired
-            // here.
-            let expired = active.is_expired(timestamp).unwrap_or(false);
-            debug_assert!(!expired, "Returned expired path from get_path");
-        }
 
         res
     }
@@ -522,6 +507,16 @@ impl<F: PathFetcher> PathPrefetcher for MultiPathManager<F> {
     fn prefetch_path(&self, src: IsdAsn, dst: IsdAsn) {
         self.ensure_managed_paths(src, dst);
     }
+}
+
+/// Returns true if `path` is expired at `now`. Paths without a known expiration never expire.
+fn path_expired_at(path: &ScionPath, now: SystemTime) -> bool {
+    let timestamp = now
+        .duration_since(SystemTime::UNIX_EPOCH)
+        .unwrap_or_default()
+        .as_secs() as u32;
+
+    path.is_expired(timestamp).unwrap_or(false)
 }
 
 /// Weak reference to a [`MultiPathManager`].
